@@ -164,6 +164,9 @@ struct SortEngine : Engine {
 			p.argv.push_back(a.path);
 			p.argv.push_back(b.path);
 			p.par["from_files"] = "1";
+			/* a process may be started without a standard input: the first pipe end then is descriptor 0 */
+			if (r.chance(1, 3))
+				p.par["stdin_closed"] = "1";
 		} else {
 			p.has_input = true;
 			p.input = in;
@@ -228,7 +231,8 @@ struct SortEngine : Engine {
 		auto lines = content_lines(in);
 		bool rev = std::find(p.argv.begin(), p.argv.end(), "-r") != p.argv.end();
 		v.predicate = std::string(rev ? "reverse" : "forward") + (p.par.count("from_files") ? " from_files" : " from_stdin") +
-			      " pipecap_" + (p.par.count("pipecap") ? p.par.at("pipecap") : "?") + (p.ipar("shortwrites") ? " shortwrites" : "");
+			      " pipecap_" + (p.par.count("pipecap") ? p.par.at("pipecap") : "?") + (p.ipar("shortwrites") ? " shortwrites" : "") +
+			      (p.ipar("stdin_closed") ? " stdin_closed" : "");
 		if (collect) {
 			st.distinct_plans.insert(p.hash());
 			if (lines.size() >= 2)
@@ -244,6 +248,8 @@ struct SortEngine : Engine {
 			st.named["lines"] += lines.size();
 			st.named["reach_pipe_full"] += r.probes[P_PIPE_FULL] ? 1 : 0;
 			st.named["reach_short_write"] += r.probes[P_WRITE_SHORT] ? 1 : 0;
+			if (p.ipar("stdin_closed"))
+				st.named["reach_started_without_stdin"]++;
 			st.named["reach_vfork"] += r.probes[P_VFORK];
 			st.named["reach_exec"] += r.probes[P_EXEC];
 			st.named["reach_waitpid"] += r.probes[P_WAITPID];
